@@ -39,7 +39,20 @@ func init() {
 		s := core.MustUnHex(a[0])
 		v, err := version.Parse(s)
 		if err != nil {
+			var c, t version.Version
+			if c.UnmarshalControl(s) == nil || t.UnmarshalText([]byte(s)) == nil {
+				return fmt.Sprintf("FAIL Parse refuses %q, UnmarshalControl / UnmarshalText accept it (%v, %v)", s, c, t)
+			}
 			return "ok"
+		}
+		// every entry point reads the same text the same way
+		var viaCtl, viaTxt version.Version
+		errCtl, errTxt := viaCtl.UnmarshalControl(s), viaTxt.UnmarshalText([]byte(s))
+		if errCtl != nil || viaCtl != v {
+			return fmt.Sprintf("FAIL Parse accepts %q as %v, UnmarshalControl gives %v %v", s, v, viaCtl, errCtl)
+		}
+		if errTxt != nil || viaTxt != v {
+			return fmt.Sprintf("FAIL Parse accepts %q as %v, UnmarshalText gives %v %v", s, v, viaTxt, errTxt)
 		}
 		if w, err := version.Parse(v.String()); err != nil || w != v {
 			return fmt.Sprintf("FAIL String()=%q reparses to %v %v", v.String(), w, err)
@@ -241,14 +254,19 @@ func renderWF(epoch, up, rev string, hasRev bool) string {
 	return s
 }
 
+// strings every version stream starts with: the corners of the syntax (signed and empty epochs, hyphens
+// and colons in odd places, white space around and inside)
+var verFixedSeeds = []string{"", " ", "1", "1.0-1", "1:1.0-1", "0:1:2", "1.0--", "-1", "0:-1", "-", ":", "1:", ":1", "a", "1 2", " 1 ", " 1 ",
+		"1 2", "+5:1", "-5:1", "-0:1", "9223372036854775807:1", "9223372036854775808:1", "1_0:1", "0x1:1", "1:2:3-4-5", "1.0-1_2", "1.0!", "é", "1é", "1-é", "1\x00", "1:-",
+	"-00:1.2", "-0:1~", "+0:1", "-0:a", "-0:1-2", "+:1.0-1", "-:1.0-1", ":1.0-1", ":1:2-3", "1-0:1", "0:", "0:-", "0:1-", "-0:", "+0:", "1:2-:3", " 1:2.30-10+b1", "1:2.30-10+b1\n", "\t1.0-1\r\n", "1.0-1 \n ", "\n1.0"}
+
 func streamVerparse(g *core.G) {
 	r := g.R
 	emit := func(s string) {
 		g.Emit("verparse", core.Hex(s))
 		g.Emit("law-verrt", core.Hex(s))
 	}
-	for _, s := range []string{"", " ", "1", "1.0-1", "1:1.0-1", "0:1:2", "1.0--", "-1", "0:-1", "-", ":", "1:", ":1", "a", "1 2", " 1 ", " 1 ",
-		"1 2", "+5:1", "-5:1", "-0:1", "9223372036854775807:1", "9223372036854775808:1", "1_0:1", "0x1:1", "1:2:3-4-5", "1.0-1_2", "1.0!", "é", "1é", "1-é", "1\x00", "1:-"} {
+	for _, s := range verFixedSeeds {
 		emit(s)
 	}
 	n := g.N(4000, 200000)
